@@ -15,11 +15,12 @@ from sexp import Sym
 
 from props._slicing_util import (canon_slice, compositions, dec_slice, enc_slice, random_chunks, slice_steps,
                                  slice_values, unsym)
+from props import _c20x
 
 PROP = "C20"
 READY = True
 DRIVER = "dm_slicing"
-LEAN_MODULES = ["DaskModel.Props.C20", "DaskModel.Props.C20Cache"]
+LEAN_MODULES = ["DaskModel.Props.C20", "DaskModel.Props.C20Cache", "DaskModel.Props.C20x"]
 TABLES = ["ChunkTolerance"]   # array.chunk-size-tolerance (dask.yaml), used by the take/_shuffle regrouping model
 CASE_TIMEOUT_S = 20
 LEVEL_TEXT = (
@@ -36,8 +37,18 @@ LEVEL_TEXT = (
     "newaxes kept (normalize_index_spec, mask_nonzero_den). take: the no-op shortcut fires exactly for the full "
     "arange, regrouping keeps the indexer (take_den). vindex: grouping the points by (output block, input blocks) "
     "loses/duplicates none, point i lands at block i/M index i%M and is read at in-block indices that address its "
-    "own coordinates (vindex_den). Validated against NumPy only: the per-source-block split / argsort / merge "
-    "inside _shuffle, dask-array indexers (slice_with_int/bool_dask_array), full-shape masks, blocks[], and NumPy's "
+    "own coordinates (vindex_den). blocks[] / partitions[] (BlockView.__getitem__): whenever the index is accepted "
+    "the graph maps product(range(len(sel))…), in that order, onto itertools.product of the per-axis selections of "
+    "block numbers (Python's selection of range(numblocks) for slices, [i mod nb] for integers, the one list itself), "
+    "the chunks are the selected entries of .chunks, every selected block exists, no axis is left empty; None and a "
+    "second list are rejected (blocks_den, blocks_axis_int, blocks_no_empty_axis, blocks_rejects). 1-d dask integer-"
+    "array index along one axis (slice_with_int_dask_array_on_axis + both chunk functions: per-block offsets, "
+    "idx - offset filtering, the cumsum re-ordering of the aggregation): for every chunking of the axis and of the "
+    "index, entries in [-n, n), one output chunk per index chunk and output position p reads global element idx[p] "
+    "(int_dask_index_den, _flat); it raises exactly when an entry is out of bounds (int_dask_index_raises_iff; the "
+    "bounds check is the repair 4ddbb82, shown necessary by int_dask_index_needs_bounds_check). Validated against "
+    "NumPy only: the per-source-block split / argsort / merge inside _shuffle, slice_with_bool_dask_array, blockwise's "
+    "pairing of blocks in the dask-integer-index path, full-shape masks, and NumPy's "
     "behaviour on one block. Histories on ONE Array object: the cached attributes "
     "(_cached_keys, _key_array, numblocks, npartitions, shape, ndim, size) are modelled as a state machine (ArrayCache: "
     "setters and cached reads of class Array); for every history of cached reads, __setitem__-style and out=-style "
@@ -48,10 +59,13 @@ LEVEL_TEXT = (
     "compared with NumPy with the invariant evaluated on the object after every step."
 )
 LEVEL_NOTE = (
-    "Trusted: Lean kernel; the hand-written models Slice1D / SliceND / NormIndex / Take / VIndex, each diffed on "
+    "Trusted: Lean kernel; the hand-written models Slice1D / SliceND / NormIndex / Take / VIndex / BlockView / "
+    "IntDaskIndex, each diffed on "
     "every run against the real function at function level (_slice_1d, new_blockdim, normalize_slice, "
     "normalize_index, slice_slices_and_integers incl. key order and blockdims, take, the slice/merge tasks of "
-    "_vindex_array) — exhaustively for all slices with start/stop in [-n-2,n+2], step in ±{1,2,3,n} over all chunkings "
+    "_vindex_array, BlockView.__getitem__ chunks and graph in dict order, chunk.slice_with_int_dask_array on "
+    "position-valued blocks, chunk.slice_with_int_dask_array_aggregate on arbitrary chunk_outputs, the offset array "
+    "and every computed output block of slice_with_int_dask_array_on_axis) — exhaustively for all slices with start/stop in [-n-2,n+2], step in ±{1,2,3,n} over all chunkings "
     "of n<=6 in the thorough tier, sampled in quick; CPython slice/range semantics as transliterated in "
     "pyIndices/pyRange (diffed against slice.indices/range); NumPy getitem on one block; np.ravel_multi_index / "
     "np.argsort group the vindex points by key (the model groups by key directly)."
@@ -64,6 +78,8 @@ ASSUMPTIONS = [
     "math.ceil((1.0*stop-start)/step) is exact for the (small) block extents involved",
     "np.unravel_index(np.ravel_multi_index(t, shape), shape) == t, and argsort of the ravelled keys lists equal keys contiguously (vindex grouping)",
     "_vindex_merge places values[k][j] at locations[k][j]; concatenate3 assembles blocks by their coordinates",
+    "NumPy indexing of the key grid by slices and at most one integer list is the outer product of the per-axis selections (BlockView)",
+    "blockwise pairs every block of x with every chunk of the dask index and the block's own offset, and concatenate=True joins the per-block outputs in block order along the axis",
 ]
 TRUSTED = ["dask.array.chunk.getitem / NumPy basic indexing on a single block"]
 
@@ -1263,6 +1279,7 @@ def case_blocks(ctx, inp):
 
 CASES = {"exotic": case_exotic, "maskfull": case_maskfull, "normidx": case_normidx, "take": case_take, "pyslice": case_pyslice, "norm": case_norm, "slice1d": case_slice1d, "slice1dint": case_slice1dint, "slicend": case_slicend,
          "api1d": case_api1d, "apind": case_apind, "vindex": case_vindex, "vindexplan": case_vindexplan, "cache": case_cache, "hist": case_hist, "blocks": case_blocks}
+CASES.update(_c20x.CASES)      # extension round: blockview, intdaskchunk, intdaskagg, intdask
 
 
 # --------------------------------------------------------------------------------------
@@ -1795,6 +1812,8 @@ def generate(ctx):
                     spec[j] = ("slice", [None, None, None])
                 seen_list = True
         yield "blocks", {"shape": shape, "chunks": chunks, "index": spec}
+    # extension round: BlockView graph/chunks and the dask integer-array index plan against their Lean models
+    yield from _c20x.generate(ctx)
 
 
 def search(ctx):
